@@ -125,11 +125,11 @@ CHECKS['C01'] = {
     'technique': 'Verus contracts on the HLSL expression exporter (1:1 structural image of the IR), its operator / literal nodes, and on the parenthesisation of the printer (precedence tables = C operator table)',
     'level_text': 'Unbounded deductive proof (Verus) on the verbatim text of generate_expression: for every well-formed IR expression the exported syntax is its structural image - ternary -> ternary with the three operands in place, a sequence -> the right-nested comma chain of its elements in order, (matrix) swizzle -> member access spelling exactly the selected channels in order, subscript / struct member / object member / constructor arguments / cast operand in their positions, a cast to an untyped literal type dropped and nothing else, operator nodes by generate_intrinsic_op, leaves stay leaves - recursively for all children; the module is only read. generate_statement: every IR statement is exported as the same kind of statement with its condition, value and blocks in the same positions (if / if-else with true and false blocks in order, for with init / condition / increment presence preserved, while vs do-while, switch, return with or without value, case labels carrying their literal), attribute count preserved. generate_user_call / generate_invocation_args: a user call is a call on the function name (or on object.name with the object the image of the first argument) with the images of the arguments one by one in order. On generate_intrinsic_op and generate_literal: for each of the 37 operator kinds the emitted node is the same-named unary / binary syntax operator '
                   'applied to the syntax exported from operand 0 (and operand 1, in that order); every non-enum constant is emitted as a literal of the same value and kind (negative int / untyped values as a negated untyped literal, '
-                  'INT_MIN and -(2^64-1) included); arity asserts and the unreachable panics are discharged. On the printer (formatter.rs): get_expression_precedence and get_precedence_associativity are the C / HLSL operator table; format_subexpression, format_expression, format_assignment_expression and format_initializer_inner append exactly the rendering of the tree - operator and punctuation around the texts of all children, each once, in source order, each printed for the level and side it stands on, in parentheses exactly when that context would regroup it, a space between two prefix operators of the same sign, a sequence expression parenthesised where an assignment-expression is expected (leaf texts uninterpreted); lemmas derive from the rendering that a regrouping sub-expression is parenthesised, that - -x is never written --x and that `int s = (a, b);` keeps its parentheses.',
+                  'INT_MIN and -(2^64-1) included); arity asserts and the unreachable panics are discharged. On the printer (formatter.rs): get_expression_precedence and get_precedence_associativity are the C / HLSL operator table; format_subexpression, format_expression, format_assignment_expression and format_initializer_inner append exactly the rendering of the tree - operator and punctuation around the texts of all children, each once, in source order, each printed for the level and side it stands on, in parentheses exactly when that context would regroup it, a space between two prefix operators of the same sign, a sequence expression parenthesised where an assignment-expression is expected (leaf texts uninterpreted); lemmas derive from the rendering that a regrouping sub-expression is parenthesised, that - -x is never written --x and that `int s = (a, b);` keeps its parentheses. format_statement (verified per statement kind, 17 copies of the verbatim body) prints exactly stmt_out: new line, attributes, keyword and punctuation around the rendering of every condition, value and sub-statement, each once and in source order, block contents one indentation level deeper between braces, and restores the indentation.',
     'level_note': 'Partial: the expression exporter (structure, not names or types) and the top-level parenthesisation decision of the printer. The statement as a whole (bit-identical results of source and emitted program) needs formal semantics of RSSL and HLSL and a proof through '
                   'exporter + formatter and is not decided: generate_scope_block (let-chains; uninterpreted), variable definitions and for-initialisers (uninterpreted), functions / structs / globals, the intrinsic-function exporter (generate_intrinsic_function: uninterpreted), which name a leaf gets (C15), exported types, literal / type / identifier printing (uninterpreted leaf texts), that the parser reads the rendering back as the same tree (C09) are outside this check. '
-                  'Assumed: name lookups, generate_type / generate_type_id, ScopedIdentifier::trivial keeps the text, registry getters, slice::split_last / to_vec, an iterator model for `for x in [a, b]` (array::IntoIter, rewrite N4); precondition wf_expr (ids in range, sequences of >= 2 elements, operator arity, constructor types unmodified) is what the type checker is expected to establish and is not proved of it; the leaf printers (format_literal, format_type_id, format_scoped_identifier, format_bin_op, format_expression_or_type, format_template_type_args) append a text that is a function of their argument and leave the context unchanged; slice::split_last. format_subexpression is verified by case split over the expression variant (rewrite CS: 12 copies of the verbatim body, one case assumption each, plus an exhaustiveness lemma). Preconditions: the operator is not one of the five internal helper operations; arity matches. '
-                  'Recursion of format_subexpression: termination not verified.',
+                  'Assumed: name lookups, generate_type / generate_type_id, ScopedIdentifier::trivial keeps the text, registry getters, slice::split_last / to_vec, an iterator model for `for x in [a, b]` (array::IntoIter, rewrite N4); precondition wf_expr (ids in range, sequences of >= 2 elements, operator arity, constructor types unmodified) is what the type checker is expected to establish and is not proved of it; the leaf printers (format_literal, format_type_id, format_scoped_identifier, format_bin_op, format_expression_or_type, format_template_type_args, format_attributes, format_variable_definition, format_for_init; FormatContext::new_line appends a text that depends on the text so far and the indentation) append a text that is a function of their argument and leave the context unchanged; slice::split_last. format_subexpression is verified by case split over the expression variant (rewrite CS: 12 copies of the verbatim body, one case assumption each, plus an exhaustiveness lemma). Preconditions: the operator is not one of the five internal helper operations; arity matches. '
+                  'Recursion of format_subexpression and format_statement: termination not verified; format_statement requires the block nesting depth plus the current indentation to fit the u32 counter.',
 }
 
 NOT_APPLICABLE = {
